@@ -696,6 +696,22 @@ class LenBytes:
     def __sx_len__(self):
         return self.n
 
+    def __bool__(self):
+        return bool(self.n > 0) if isinstance(self.n, SymInt) else self.n > 0
+
+    def __getitem__(self, sl):
+        if not isinstance(sl, slice):
+            return CUR.int('lenbyte', 0, 255)       # some byte of the content-free string
+        if sl.step not in (None, 1):
+            raise Unsupported('LenBytes extended slicing')
+        n = self.n
+        start = 0 if sl.start is None else sl.start
+        stop = n if sl.stop is None else sl.stop
+        # python slice clamping, for non-negative bounds
+        stop = ite(stop > n, n, stop) if isinstance(stop > n, SymBool) else (n if stop > n else stop)
+        start = ite(start > stop, stop, start) if isinstance(start > stop, SymBool) else (stop if start > stop else start)
+        return LenBytes(stop - start)
+
     def __radd__(self, o):
         return LenBytes(len_shim(o) + self.n)
 
@@ -977,6 +993,8 @@ class bytes_shim(metaclass=_BytesMeta):
     _real = bytes
 
     def __new__(cls, *a, **k):
+        if a and isinstance(a[0], LenBytes):
+            return a[0]
         if a and isinstance(a[0], SymBytes):
             if not a[0].ov:
                 return bytes(a[0].base)
@@ -1051,6 +1069,11 @@ def len_shim(x):
 
 
 def sum_shim(xs, start=0):
+    if isinstance(xs, LenBytes):
+        # content-free bytes: the byte sum is an unconstrained value in [0, 255*len]
+        v = CUR.int('lensum', 0, None)
+        CUR.add(v.t <= 255 * _it(xs.n))
+        return v + start
     if isinstance(xs, SymBytes):
         if not xs.ov:
             return sum(xs.base) + start
